@@ -105,7 +105,16 @@ class Gen:
         pad = r.choice([0, 0, 4, 8])
         frame = 4 * len(slots) + pad
         self.emit(f"{f.name}:", None, indent=False)
-        self.emit(f"addi sp, sp, -{frame}", "prologue-sp")
+        big = self.shapes and r.random() < 0.15
+        if big:
+            # a frame beyond addi's 12-bit immediate: allocated with li + sub, released with li + add
+            self.stats["big_frames"] = self.stats.get("big_frames", 0) + 1
+            frame += r.choice([2048, 4096, 65536])
+            tb = r.choice(TEMPS)
+            self.emit(f"li {tb}, {frame}", "li-temp")
+            self.emit(f"sub sp, sp, {tb}", "prologue-sp")
+        else:
+            self.emit(f"addi sp, sp, -{frame}", "prologue-sp")
         for i, s in enumerate(slots):
             self.emit(f"sw {s}, {4 * i + pad}(sp)", "save")
         for i, v in enumerate(vars_):
@@ -128,7 +137,12 @@ class Gen:
         self.emit(f"mv a0, {acc}", "set-result")
         for i, s in enumerate(slots):
             self.emit(f"lw {s}, {4 * i + pad}(sp)", "restore")
-        self.emit(f"addi sp, sp, {frame}", "epilogue-sp")
+        if big:
+            tb = r.choice(TEMPS)
+            self.emit(f"li {tb}, {frame}", "li-temp")
+            self.emit(f"add sp, sp, {tb}", "epilogue-sp")
+        else:
+            self.emit(f"addi sp, sp, {frame}", "epilogue-sp")
         self.emit("ret", "ret")
 
     # ---- other shapes of conforming functions -------------------------------------------
